@@ -86,10 +86,11 @@ def handle (j : Json) : Except String Json := do
     let existing ← Codec.strList (← j.getObjVal? "existing")
     let ms ← (← (← j.getObjVal? "mutations").getArr?).toList.mapM Codec.mutOf
     let mj := fun (l : List Mutation) => Json.arr (l.map Codec.mutJ).toArray
-    match Opt.preprocess existing ms with
+    let copies := (j.getObjValAs? Bool "copies").toOption.getD false
+    match Opt.preprocessC copies existing ms with
     | .ok (out, arr) =>
-      -- second pass over the rewritten objects (EvolveAppTask.prepare, then _build_batches)
-      let second := match Opt.preprocess existing arr with
+      -- second pass over the caller's objects (EvolveAppTask.prepare, then _build_batches)
+      let second := match Opt.preprocessC copies existing arr with
         | .ok (out2, arr2) => Json.mkObj [("out", mj out2), ("arr", mj arr2)]
         | .error (.keyError w) => Json.mkObj [("err", "KeyError"), ("where", w)]
         | .error (.valueError w) => Json.mkObj [("err", "ValueError"), ("where", w)]
